@@ -809,6 +809,12 @@ impl OutstationSession {
                 self.state.deferred_read.clear();
                 self.process_broadcast(info.id, database, mode, request)
                     .await;
+                self.state.last_valid_request = Some(LastValidRequest::new(
+                    request.header.control.seq,
+                    xxh64(request.raw_fragment, 0),
+                    None,
+                    None,
+                ));
                 Ok(UnsolicitedWaitResult::ReadNext)
             }
             FragmentType::MalformedRequest(_, err) => {
@@ -1103,7 +1109,9 @@ impl OutstationSession {
             FragmentType::Broadcast(mode) => {
                 self.process_broadcast(info.id, database, mode, request)
                     .await;
-                None
+                // remember the broadcast (it has no response) so that a retransmission is recognized
+                let hash = xxh64(request.raw_fragment, 0);
+                Some(LastValidRequest::new(seq, hash, None, None))
             }
             FragmentType::SolicitedConfirm(seq) => {
                 tracing::warn!(
@@ -2220,12 +2228,18 @@ impl OutstationSession {
             };
         }
 
-        if let Some(mode) = info.broadcast {
-            return FragmentType::Broadcast(mode);
-        }
-
         // we need to calculate a digest to deduplicate
         let this_hash = xxh64(request.raw_fragment, 0);
+
+        if let Some(mode) = info.broadcast {
+            // a retransmitted broadcast must not be executed a second time
+            if let Some(last) = self.state.last_valid_request {
+                if last.seq == request.header.control.seq && last.request_hash == this_hash {
+                    return FragmentType::RepeatNonRead(this_hash, None);
+                }
+            }
+            return FragmentType::Broadcast(mode);
+        }
 
         let object_headers = match request.objects {
             Ok(x) => x,
